@@ -40,7 +40,7 @@ static int build_side(side_creds *sc, int proto, int is_client, int depth, const
 typedef struct { size_t wsize[6]; int nw; size_t rbuf; } app_dir;
 typedef struct {
 	int proto, is_client, mutual; const side_creds *own; const side_creds *trust; /* whose cacerts to trust (NULL: none) */
-	app_dir out, in; int do_app, do_close; uint64_t entropy_key; long entropy_fail_at;
+	app_dir out, in; int do_app, do_close, interleave; /* interleave: the second speaker sends its data after its FIRST (partial) read, then keeps reading */ uint64_t entropy_key; long entropy_fail_at;
 	/* results */
 	int hs_ret; int app_ok; size_t app_got; int app_err; int close_seen; uint8_t secrets[400]; size_t secrets_len; int cipher_suite, protocol; long draws; int extra_data; /* application data received after the script (C10/C11) */
 	TLS_CONNECT *conn_out;
@@ -65,9 +65,12 @@ static int ep_task(void *arg) {
 	e->app_ok = 1;
 	if (e->do_app) { static __thread uint8_t rb[70000];
 		/* client speaks first, then the server answers */
+		int sent_early = 0;
 		for (int phase = 0; phase < 2; phase++) { int sending = (phase == 0) == (e->is_client != 0);
+			if (sending && sent_early) continue;
 			if (sending) { const uint8_t *src = APPDATA[e->is_client ? 0 : 1]; size_t off = 0; for (int i = 0; i < e->out.nw; i++) { if (ep_send(e, conn, src + off, e->out.wsize[i]) != 1) { e->app_ok = 0; e->app_err = 1; return 1; } off += e->out.wsize[i]; } }
-			else { const uint8_t *exp = APPDATA[e->is_client ? 1 : 0]; size_t total = 0; for (int i = 0; i < e->in.nw; i++) total += e->in.wsize[i]; size_t got = 0; int guard = 0; while (got < total) { size_t g = 0; size_t cap = e->in.rbuf; int r = ep_recv(e, conn, rb, cap, &g); if (r != 1) { e->app_ok = 0; e->app_err = 2; e->app_got = got; return 1; } if (g == 0 || g > cap || got + g > total || memcmp(rb, exp + got, g)) { e->app_ok = 0; e->app_err = 3; e->app_got = got; return 1; } got += g; if (++guard > 200000) { e->app_ok = 0; e->app_err = 4; return 1; } } e->app_got = got; } }
+			else { const uint8_t *exp = APPDATA[e->is_client ? 1 : 0]; size_t total = 0; for (int i = 0; i < e->in.nw; i++) total += e->in.wsize[i]; size_t got = 0; int guard = 0; while (got < total) { size_t g = 0; size_t cap = e->in.rbuf; int r = ep_recv(e, conn, rb, cap, &g); if (r != 1) { e->app_ok = 0; e->app_err = 2; e->app_got = got; return 1; } if (g == 0 || g > cap || got + g > total || memcmp(rb, exp + got, g)) { e->app_ok = 0; e->app_err = 3; e->app_got = got; return 1; } got += g; if (++guard > 200000) { e->app_ok = 0; e->app_err = 4; return 1; }
+					if (e->interleave && !sent_early && !e->is_client && got < total) { /* unread bytes of the current record are still buffered: write now */ const uint8_t *src = APPDATA[1]; size_t off = 0; int refused = 0; for (int i = 0; i < e->out.nw; i++) { if (ep_send(e, conn, src + off, e->out.wsize[i]) != 1) { refused = 1; break; } off += e->out.wsize[i]; } if (!refused) sent_early = 1; else if (off) { e->app_ok = 0; e->app_err = 5; return 1; } /* a refusal of the very first write while data is buffered is a documented restriction of tls_send: fall back to the strict order */ } } e->app_got = got; } }
 	}
 	if (e->do_close && e->proto != P_TLS13) { if (e->is_client) { tls_shutdown(conn); } else { static __thread uint8_t rb2[64]; size_t g; int r = tls_recv(conn, rb2, sizeof rb2, &g); e->close_seen = (r == 0); if (r == 1) e->extra_data = 1; tls_shutdown(conn); } }
 	return 1;
